@@ -673,6 +673,55 @@ def decision_list(stmts):
     return None
 
 
+def exit_paths(stmts, limit=64):
+    """Paths through a body of if / elif / else, return, raise and simple statements:
+    [(tuple of (test node, taken?) decisions, 'return' | 'raise' | 'end', exit node or None)]. None if the body loops, tries,
+    or has more than `limit` paths."""
+    def rec(stmts, cond):
+        if not stmts:
+            return [(cond, "end", None)]
+        st, rest = stmts[0], stmts[1:]
+        if isinstance(st, ast.Return):
+            return [(cond, "return", st)]
+        if isinstance(st, ast.Raise):
+            return [(cond, "raise", st)]
+        if isinstance(st, ast.If):
+            out = []
+            for taken, body in ((True, st.body), (False, st.orelse)):
+                for c2, kind, node in rec(list(body), cond + ((st.test, taken),)):
+                    if kind == "end":
+                        sub = rec(rest, c2)
+                        if sub is None:
+                            return None
+                        out.extend(sub)
+                    else:
+                        out.append((c2, kind, node))
+                    if len(out) > limit:
+                        return None
+            return out
+        if isinstance(st, (ast.For, ast.While, ast.Try, ast.With, ast.Match)):
+            return None
+        return rec(rest, cond)
+    r = rec(list(strip_docstring(stmts)), ())
+    return r
+
+
+def literal_of(test, taken):
+    """(canonical text, polarity) of a decision: `not x`, `a != b`, `a is not b` are folded into the polarity"""
+    pol = taken
+    t = test
+    while isinstance(t, ast.UnaryOp) and isinstance(t.op, ast.Not):
+        t, pol = t.operand, not pol
+    if isinstance(t, ast.Compare) and len(t.ops) == 1:
+        op = t.ops[0]
+        a, b = sorted([unparse(t.left).replace(" ", ""), unparse(t.comparators[0]).replace(" ", "")])
+        if isinstance(op, (ast.Eq, ast.NotEq)):
+            return f"{a}=={b}", pol if isinstance(op, ast.Eq) else not pol
+        if isinstance(op, (ast.Is, ast.IsNot)):
+            return f"{a} is {b}", pol if isinstance(op, ast.Is) else not pol
+    return unparse(t).replace(" ", ""), pol
+
+
 def params(f) -> list[str]:
     """Positional parameter names (positional-only first)."""
     return [a.arg for a in f.args.posonlyargs + f.args.args]
